@@ -18,8 +18,8 @@ GeometryFactory<TGeomImpl, TProjection> (every instantiation of drivers/geom.cpp
  E4-first-element-never-skipped   the duplicate test must not be able to drop the FIRST element: a sentinel that is a
         default-constructed (= undefined) or otherwise constant osmium::Location compares equal to a first element with that
         location, unless the deciding condition has a further operand / the emit can be reached without the comparison
-        (`first || last != cur`).   FIRES on today's tree (3 instances `#sentinel`, see KNOWN); a sentinel built from other
-        constants is reported under the separate key `#sentinel-constant`.
+        (`first || last != cur`, `last.is_undefined() || last != cur`), or an invalid current location cannot reach the comparison.
+        A sentinel built from other constants is reported under the separate key `#sentinel-constant`.
  W1-wrapper-forwards         linestring_start/finish, polygon_start/finish call the same-named back-end method exactly
         once on every path, pass their parameter on and return its result.
  T1-create-protocol          create_linestring / create_polygon / create_multipolygon (helpers they call are explored from the
@@ -66,10 +66,11 @@ early return vs ?: and the like make no difference.  Failures are classified by 
         the lookup table is "0123456789ABCDEF".
  N1-snprintf-length-bounded  double2string: the size argument of snprintf equals the extent of the destination array (from the array
         type and the folded constant: not more -- overflow --, not less -- usable characters lost); the value returned by
-        snprintf is used as index into / byte count of that array only where a test 0 < len < size dominates the use.
-        The second part FIRES on today's tree under NDEBUG (see KNOWN).
+        snprintf is used as index into / byte count of that array only where its value range lies inside the array: interval-set
+        dataflow over the CFG, started from the library convention (the result of a numeric conversion is < 0 or >= 1), refined
+        on branch edges, so a dominating test as well as a test-and-clamp is understood.
  N2-zero-trim-needs-fraction double2string: the loop that strips trailing '0' characters runs only under a condition that the text has a
-        fractional part (mentions the precision or a '.').   FIRES on today's tree (see KNOWN).
+        fractional part (mentions the precision or a '.').
 
 Not decided (left to other technique families): numeric exactness of snprintf("%.*f") and of the zero trimming as values;
 that an independent WKB/WKT/GeoJSON decoder of a real library accepts the bytes (the reference grammar in this file is the
@@ -99,32 +100,16 @@ ASSUMPTIONS = [
     'the instantiations in drivers/geom.cpp (WKB, WKT, GeoJSON x Identity, Mercator x pointer, reverse iterator) cover the library\'s own uses',
 ]
 
-# Genuine defects of the unchanged tree found by these rules: (rule, key, explanation).  Reported with R.bad as usual; each was
-# replayed once against the real headers in a scratch directory (since removed) after the rule had predicted it.
-KNOWN = [
-    ('E4-first-element-never-skipped', 'osmium::geom::GeometryFactory::fill_linestring_unique#sentinel',
-     'The duplicate filter compares every element with `last_location`, which starts as a default-constructed (undefined) Location. '
-     'A way whose FIRST node has an undefined location followed by >= 2 valid distinct ones, e.g. locations [undefined, (1,1), (2,2)], '
-     'gives create_linestring(way, use_nodes::unique) == LINESTRING(1 1,2 2) without any error, while use_nodes::all (and an undefined '
-     'location at any later position) throws osmium::invalid_location.  Property: undefined locations at any position are rejected.'),
-    ('E4-first-element-never-skipped', 'osmium::geom::GeometryFactory::fill_polygon_unique#sentinel',
-     'Same sentinel: create_polygon(way) with locations [undefined, A, B, C, A] returns POLYGON((A,B,C,A)) instead of throwing.'),
-    ('E4-first-element-never-skipped', 'osmium::geom::GeometryFactory::add_points#sentinel',
-     'Same sentinel in the ring loop of create_multipolygon: a ring whose first node reference has an undefined location is exported '
-     'without that node and without an error.'),
-    ('N1-snprintf-length-bounded', 'osmium::double2string#snprintf-result',
-     'double2string formats into char buffer[20] and uses the snprintf result `len` as index and copy count; the only test is an '
-     'assert.  With NDEBUG, double2string(out, -20037508.34, 10) (a Web-Mercator x at lon -180 with precision 10, i.e. '
-     'WKTFactory<MercatorProjection>{10}) needs 20 characters + NUL: snprintf returns 20, the text is truncated, buffer[19] is the NUL '
-     'and 20 bytes including the NUL are appended ("-20037508.340000000\\0" instead of "-20037508.34").  Precision 17 returns 27: '
-     'buffer[26] and copy_n(buffer, 27) read past the 20 byte stack buffer.  Property: numbers exact for every magnitude a projection '
-     'can produce at precision 0..17.'),
-    ('N2-zero-trim-needs-fraction', 'osmium::double2string#zero-trim-only-after-decimal-point',
-     '`while (buffer[len - 1] == \'0\') --len;` runs whether or not the text contains a decimal point.  With precision 0 snprintf("%.0f") '
-     'writes no \'.\', so the zeros stripped are integer digits: double2string(s, 10.0, 0) == "1", 100.0 -> "1", 120.0 -> "12"; '
-     'WKTFactory<>{0}.create_point(Location{10.0, 20.0}) == "POINT(1 2)"; for 0.0 the loop reads buffer[-1].  Property: numbers exact at '
-     'precision 0..17.'),
-]
+# Genuine defects of the unchanged tree found by these rules: (rule, key, explanation).  Reported with R.bad as usual.
+# None is open any more.  History (each was predicted by the rule, replayed once against the real headers, then fixed in /repo; the
+# reverted fixes are seeded mutants in selftest/mutants/c17.py):
+#   F12 E4-first-element-never-skipped  fill_linestring_unique / fill_polygon_unique / add_points #sentinel   fixed by ff8c96c
+#       (undefined first location compared equal to the default-constructed sentinel and was dropped silently)
+#   F13 N1-snprintf-length-bounded  osmium::double2string#snprintf-result                                     fixed by 06cfb4d
+#       (NDEBUG: snprintf result used unchecked as index / count of char buffer[20])
+#   F14 N2-zero-trim-needs-fraction osmium::double2string#zero-trim-only-after-decimal-point                  fixed by 06cfb4d
+#       (precision 0: integer zeros stripped, double2string(s, 10.0, 0) == "1")
+KNOWN = []
 
 GF = 'osmium::geom::GeometryFactory'
 LOC = 'osmium::Location'
@@ -2069,6 +2054,179 @@ def _mentions(fn, nid, d):
     return any(fn.nodes[x].get('k') == 'var' and fn.nodes[x].get('d') == d for x in fn.subtree(nid))
 
 
+# interval sets: tuple of disjoint (lo, hi) pairs, None = unbounded
+_IV_ALL = ((None, None),)
+
+
+def _iv_norm(ivs):
+    ivs = [iv for iv in ivs if iv[0] is None or iv[1] is None or iv[0] <= iv[1]]
+    ivs.sort(key=lambda iv: (iv[0] is not None, iv[0] if iv[0] is not None else 0))
+    out = []
+    for lo, hi in ivs:
+        if out and (out[-1][1] is None or lo is None or lo <= out[-1][1] + 1):
+            plo, phi = out[-1]
+            out[-1] = (plo, None if (phi is None or hi is None) else max(phi, hi))
+        else:
+            out.append((lo, hi))
+    return tuple(out)
+
+
+def _iv_union(a, b):
+    return _iv_norm(list(a) + list(b))
+
+
+def _iv_meet(a, lo, hi):
+    out = []
+    for (l, h) in a:
+        nl = l if lo is None else (lo if l is None else max(l, lo))
+        nh = h if hi is None else (hi if h is None else min(h, hi))
+        out.append((nl, nh))
+    return _iv_norm(out)
+
+
+def _iv_within(a, need):
+    return all(l is not None and h is not None and l >= need[0] and h <= need[1] for (l, h) in a)
+
+
+def _iv_text(a):
+    if a is None:
+        return 'anything'
+    return ' or '.join('[%s, %s]' % ('-inf' if l is None else l, '+inf' if h is None else h) for (l, h) in a) or 'nothing'
+
+
+def _snprintf_result_set(fmt):
+    """Library convention (C11 7.21.6.5): snprintf returns the number of characters the complete output has, or a negative value on an
+    encoding error.  A format that contains a numeric / character conversion produces at least one character."""
+    import re
+    if fmt is not None and re.search(r'%[-+ #0]*(\*|\d+)?(\.(\*|\d+))?(hh|h|l|ll|L|j|z|t)?[diouxXfFeEgGaAc]', fmt):
+        return ((None, -1), (1, None))
+    return _IV_ALL
+
+
+def _affine_offset(fn, nid, d):
+    """c if the expression is <variable d> + c (c integer constant, possibly 0 or negative), else None."""
+    n = pn(fn, nid, explicit_noop=True)
+    if n is None:
+        return None
+    if n.get('k') == 'var' and n.get('d') == d:
+        return 0
+    if n.get('k') == 'binop' and n.get('op') in ('+', '-'):
+        l, r = _affine_offset(fn, n['lhs'], d), fn.const_value(n['rhs'])
+        if l is not None and r is not None:
+            return l + r if n['op'] == '+' else l - r
+        if n['op'] == '+':
+            l, r = fn.const_value(n['lhs']), _affine_offset(fn, n['rhs'], d)
+            if l is not None and r is not None:
+                return l + r
+    return None
+
+
+def _iv_refine(fn, cond, sense, st, d):
+    """value set of variable d on the edge where `cond` evaluated to `sense`."""
+    n = pn(fn, cond)
+    if n is None:
+        return st
+    k = n.get('k')
+    if k == 'unop' and n.get('op') == '!':
+        return _iv_refine(fn, n['sub'], not sense, st, d)
+    if k == 'binop' and n.get('op') in ('&&', '||'):
+        a = _iv_refine(fn, n['lhs'], sense, st, d)
+        b = _iv_refine(fn, n['rhs'], sense, st, d)
+        both = (n['op'] == '&&') == bool(sense)      # (a && b) true / (a || b) false: both operands have that value
+        if both:
+            return tuple(iv for x in a for iv in _iv_meet(b, x[0], x[1]))
+        return _iv_union(a, b)
+    if k == 'binop' and n.get('op') in ('<', '<=', '>', '>=', '==', '!='):
+        op = n['op']
+        lo_, ro_ = _affine_offset(fn, n['lhs'], d), _affine_offset(fn, n['rhs'], d)
+        lc, rc = fn.const_value(n['lhs']), fn.const_value(n['rhs'])
+        if lo_ is not None and rc is not None:
+            c = rc - lo_
+        elif ro_ is not None and lc is not None:
+            c = lc - ro_
+            op = {'<': '>', '<=': '>=', '>': '<', '>=': '<=', '==': '==', '!=': '!='}[op]
+        else:
+            return st
+        if not sense:
+            op = {'<': '>=', '<=': '>', '>': '<=', '>=': '<', '==': '!=', '!=': '=='}[op]
+        if op == '<':
+            return _iv_meet(st, None, c - 1)
+        if op == '<=':
+            return _iv_meet(st, None, c)
+        if op == '>':
+            return _iv_meet(st, c + 1, None)
+        if op == '>=':
+            return _iv_meet(st, c, None)
+        if op == '==':
+            return _iv_meet(st, c, c)
+        return _iv_union(_iv_meet(st, None, c - 1), _iv_meet(st, c + 1, None))
+    return st
+
+
+def _len_ranges(fn, d, call_id, initial):
+    """{element id: interval set of variable d before the element}.  Definitions understood: the snprintf call (initial), assignment
+    of a constant, decrement (the value does not grow: the range becomes the hull from its lowest to its highest value -- where
+    trimming stops is a matter of the text, see N2).  Anything else => None (not modelled)."""
+    defs = {}
+    dn, dv = decl_of(fn, d)
+    if dv is not None and isinstance(dv.get('init'), int):
+        defs[dn['id']] = ('set', initial) if peel(fn, dv['init']) == call_id else None
+        if defs[dn['id']] is None:
+            c0 = fn.const_value(dv['init'])
+            if c0 is None:
+                return None
+            defs[dn['id']] = ('set', ((c0, c0),))
+    for (n, lk, kind, rhs) in writes(fn):
+        if lk != ('var', d):
+            continue
+        if kind == 'assign' and rhs is not None and peel(fn, rhs) == call_id:
+            defs[n['id']] = ('set', initial)
+        elif kind == 'assign' and rhs is not None and fn.const_value(rhs) is not None:
+            c0 = fn.const_value(rhs)
+            defs[n['id']] = ('set', ((c0, c0),))
+        elif kind == 'dec':
+            defs[n['id']] = ('dec',)
+        else:
+            return None
+    if address_taken(fn, ('var', d)):
+        return None
+    before = {}
+    inb = {fn.entry: _IV_ALL}
+    work = [fn.entry]
+    rounds = 0
+    while work:
+        rounds += 1
+        if rounds > 5000:
+            return None
+        b = work.pop()
+        st = inb[b]
+        blk = fn.blocks[b]
+        for e in blk['elems']:
+            before[e] = _iv_union(before[e], st) if e in before else st
+            df = defs.get(e)
+            if df is not None:
+                if df[0] == 'set':
+                    st = df[1]
+                elif st:
+                    los = [l for (l, _h) in st]
+                    his = [h for (_l, h) in st]
+                    st = ((None if None in los else min(los), None if None in his else max(his)),)
+        if is_abort_block(fn, b):
+            continue
+        succs = blk['succs']
+        for i, s_ in enumerate(succs):
+            if s_ is None:
+                continue
+            out = st
+            if 'cond' in blk and len(succs) == 2 and blk.get('termcls') != 'SwitchStmt':
+                out = _iv_refine(fn, blk['cond'], i == 0, st, d)
+            new_ = _iv_union(inb[s_], out) if s_ in inb else out
+            if s_ not in inb or new_ != inb[s_]:
+                inb[s_] = new_
+                work.append(s_)
+    return before
+
+
 def snprintf_rules(fb, R):
     q = 'osmium::double2string'
     key = q + '#snprintf-result'
@@ -2106,47 +2264,45 @@ def snprintf_rules(fb, R):
             if ld is None:
                 R.bad('N1-snprintf-length-bounded', key, fn.loc(c['id']), 'the result of snprintf (number of characters needed) is discarded')
                 continue
-            # uses of the result as index into / byte count of that array
+            # value range of the result variable at every program point: interval-set dataflow over the CFG, started from the library
+            # convention of snprintf for this format, refined on branch edges by the comparisons of the variable with constants,
+            # joined (union) where paths meet -- so a test-and-clamp (`if (len < 0 || len >= N) len = N - 1;`) is understood as well as
+            # a test that guards the use
+            fmt = string_of(fn, a[2]) if len(a) > 2 else None
+            rng = _len_ranges(fn, ld, c['id'], _snprintf_result_set(fmt))
+            if rng is None:
+                R.broken('%s: the snprintf result variable is modified in a way the range analysis does not model' % fn.full)
+                continue
             uses = []
+            badu = None
             for n in fn.all_nodes():
+                need = None
                 if n.get('k') == 'index' and _mentions(fn, n['idx'], ld):
                     rv = fn.root_var(n['base'])
                     if rv is not None and rv[0] == 'var' and rv[1] == bd:
-                        uses.append(n)
-                if n.get('k') == 'call' and n.get('args') and any(_mentions(fn, x, ld) for x in n['args']):
+                        off = _affine_offset(fn, n['idx'], ld)
+                        if off is None:
+                            R.broken('%s: index expression %s is not <result> + constant' % (fn.full, fn.expr(n['idx'])))
+                            continue
+                        need = (0 - off, arr - 1 - off)       # the variable itself must lie in this range
+                if n.get('k') == 'call' and n.get('args') and n['id'] != c['id']:
+                    cnt = [x for x in n['args'] if local_or_param(fn, x) == ld]
                     srcs = list(n['args']) + ([n['recv']] if n.get('recv') is not None else [])
-                    if any((fn.root_var(x) or (None, None))[1] == bd for x in srcs) and n['id'] != c['id']:
-                        uses.append(n)
-            badu = None
-            for u in uses:
-                rel = [(g, s_, b_) for (g, s_, b_) in guards_of(fn, u['id']) if _mentions(fn, g, ld) and
-                       not any(fn.nodes[x].get('k') == 'index' for x in fn.subtree(g))]
-
-                def atoms(f, n, ld=ld):
-                    if n.get('k') == 'var' and n.get('d') == ld:
-                        return ('n', OT.INT32)
-                    return None
-                progs = []
-                for (g, s_, _b) in rel:
-                    try:
-                        progs.append((OT.compile_expression(fb, fn, g, atoms), s_))
-                    except OT.Inexact:
-                        pass        # a guard that is not a plain comparison does not count
-                consts = {0, 1, size, size - 1, arr, arr - 1}
-                for p_, _s in progs:
-                    consts |= set(p_.consts)
-                implied = bool(progs)
-                for w in OT.worlds({'n': OT.INT32}, consts):
-                    if all(OT.run(p_, w).as_bool() == bool(s_) for (p_, s_) in progs) and not (w.gt('n', 0) and w.lt('n', min(size, arr))):
-                        implied = False
-                if not implied:
-                    badu = u
-                    break
-            R.check(badu is None, 'N1-snprintf-length-bounded', key, fn.loc(badu['id']) if badu else fn.loc(c['id']),
-                    'the value returned by snprintf is used as index / byte count (`%s`) without a test that it is > 0 and < %d that survives '
-                    'in this configuration: a number that needs %d or more characters is truncated and the buffer is read past its end'
-                    % (fn.expr(badu['id'])[:60] if badu else '', size, size),
-                    detail='%d uses of the snprintf result with the fixed buffer, all dominated by 0 < len < %d' % (len(uses), size))
+                    if cnt and any((fn.root_var(x) or (None, None))[1] == bd for x in srcs):
+                        need = (0, arr)                        # a byte count taken from the array
+                if need is None:
+                    continue
+                uses.append(n)
+                st_ = rng.get(n['id'])
+                if st_ is None or not _iv_within(st_, need):
+                    if badu is None:
+                        badu = (n, st_, need)
+            R.check(badu is None, 'N1-snprintf-length-bounded', key, fn.loc(badu[0]['id']) if badu else fn.loc(c['id']),
+                    'the value returned by snprintf is used as index / byte count of the %d byte buffer in `%s` where it can be %s (it must lie in '
+                    '[%s, %s]): a number that does not fit is truncated and the buffer is read outside its bounds'
+                    % (arr, fn.expr(badu[0]['id'])[:60] if badu else '', _iv_text(badu[1]) if badu else '', badu[2][0] if badu else '', badu[2][1] if badu else ''),
+                    detail='%d uses of the snprintf result with the fixed buffer, value range inside the buffer at each (convention: result of a '
+                           'numeric conversion is < 0 or >= 1)' % len(uses))
         if calls and not nfixed:
             R.ok('N1-snprintf-length-bounded', key, fn.site, detail='snprintf formats into dynamically sized storage only')
             R.ok('N1-snprintf-length-bounded', q + '#size-arg-equals-buffer-extent', fn.site, detail='no fixed-size destination')
